@@ -801,7 +801,7 @@ Definition redundant_inner (outer inner : bi) : bool :=
   | BSorted, (BList | BSorted | BTuple | BIter | BReversed) => true
   | BList, (BList | BTuple | BIter) => true
   | BSet, (BSet | BList | BSorted | BTuple | BIter | BReversed) => true
-  | BIter, (BList | BTuple | BIter) => true
+  | BIter, BIter => true        (* 7f623fd: iter(list(x)) / iter(tuple(x)) go over a copy of x and stay *)
   | BTuple, (BList | BTuple | BIter) => true
   | BSum, (BList | BTuple | BIter | BSorted | BReversed) => true
   | _, _ => false
